@@ -54,6 +54,9 @@ let uids_of_mask (m : int) : n list =
 let rec parse_zop (s : string) : zop =
   match String.split_on_char '.' s with
   | ["DF"; p; m] -> ZFire (ni p, uids_of_mask (ios m))
+  | ["A"; p] -> ZAddDup (ni p)
+  | ["ST"; d] -> ZDevStart (ni d)
+  | ["DA"; d] -> ZY (YX (XBase (Stop (ni d))))
   | _ -> ZY (parse_op s)
 and parse_op (s : string) : yop =
   match String.split_on_char '.' s with
@@ -167,7 +170,9 @@ let handle (payload : string) : string =
     let dead = ref false in
     List.iteri (fun k zo ->
       if not !dead then begin
-        let o = match zo with ZY yo -> yo | ZFire (p, _) -> YX (XBase (Data p)) in
+        let o = match zo with ZY yo -> yo | ZFire (p, _) -> YX (XBase (Data p))
+                             | ZAddDup p -> YX (XBase (Data p)) | ZDevStart _ -> YX (XBase GC) in
+        (match zo with ZAddDup _ | ZDevStart _ -> tag "devapi" | _ -> ());
         (match zo with ZFire (p, _) -> if int_of_n (!z.z_pend p) > 0 then tag "fire" | _ -> ());
         let s = !x.x_s in
         (* classify what this op exercises *)
@@ -212,7 +217,7 @@ let handle (payload : string) : string =
                                  k (cands x'.x_s) k (broker_s c x') k (prefs_s c x') k (prio_s c x'.x_s)
                                  k (routes_s z') k (pend_s c z'))
       end) ops;
-    let order = ["fire"; "housekeeping"; "frame"; "vetounpatch"; "vetostate"; "vetorepatch"; "vetofresh"; "register"; "unregister"; "svcunreg-missing";
+    let order = ["devapi"; "fire"; "housekeeping"; "frame"; "vetounpatch"; "vetostate"; "vetorepatch"; "vetofresh"; "register"; "unregister"; "svcunreg-missing";
                  "loop"; "multi"; "gc"; "stop"; "repatch"; "nullport"] in
     let prim = match List.filter (fun t -> t <> "gc" && Hashtbl.mem tags t) order with t :: _ -> t | [] -> "plain" in
     let cls = prim ^ (if Hashtbl.mem tags "gc" then "+collect" else "") in
